@@ -1127,7 +1127,7 @@ func replyStorm(r *rng, n int, base int) error {
 		}
 		for e := 0; e < nev; e++ {
 			kind := []string{"udp_small", "udp_junk", "udp_ok", "udp_uperr", "udp_timeout", "udp_panic",
-				"tcp_half", "tcp_small", "tcp_ok_then_close", "tcp_close_before_reply", "tcp_panic"}[r.intn(11)]
+				"tcp_half", "tcp_small", "tcp_ok_then_close", "tcp_close_before_reply", "tcp_panic", "tcp_pipeline"}[r.intn(12)]
 			if longHold && (kind == "udp_timeout" || kind == "tcp_close_before_reply") {
 				kind = "udp_ok" // this proxy's request timeout is the long one: no further hangs
 			}
@@ -1183,6 +1183,23 @@ func replyStorm(r *rng, n int, base int) error {
 				case "tcp_panic":
 					set(&behaviour{kind: "panic"})
 					tcpExchange(w.addr, frame(q), 1, 100*time.Millisecond, time.Millisecond)
+				case "tcp_pipeline":
+					// one connection, K+2 complete queries in ONE segment, each held inside the upstream for a while:
+					// every one of them needs a unit of capacity of its own
+					gate := make(chan struct{})
+					var raw []byte
+					for j := 0; j < k+2; j++ {
+						pn := fmt.Sprintf("p%d.%s", j, name)
+						pq := msgSpec{id: 4096*j + e, flags: 0x0100, qs: [][]byte{question(encodeName(strings.TrimSuffix(pn, ".")), 1, 1)}}.encode()
+						pr := append([]byte{}, pq...)
+						pr[2] |= 0x80
+						w.up.mu.Lock()
+						w.up.script[pn] = &behaviour{kind: "up", msg: pr, gate: gate}
+						w.up.mu.Unlock()
+						raw = append(raw, frame(pq)...)
+					}
+					go func() { time.Sleep(50 * time.Millisecond); close(gate) }()
+					tcpExchange(w.addr, raw, k+2, 600*time.Millisecond, time.Millisecond)
 				}
 			}(kind)
 			if r.coin(60) {
